@@ -96,7 +96,7 @@ def parseField : String → Option StoreField
   | "dropfail" => some .dropFail
   | _ => none
 
-def parseCutoffs (s : String) : Option (List (String × String × Time)) :=
+def parseCutoffs (s : String) : Option (List (String × String × Int)) :=
   (splitComma s).mapM fun e =>
     match e.splitOn ":" with
     | [db, rp, a] => (toI64? a).map fun a => (db, rp, a)
